@@ -21,6 +21,7 @@ EXPLANATION = (
     'written to it plus a length-establishing operation per planned file that dominates the downloads, confinement of every file-system mutation of restore to '
     'the target directory, per-file obligations discharged in loops over the files (not over chunks), metadata restored after all writes. Rules C01.R1-R8.'
     ' Added with the seeded-defect rounds: leftovers of a finished loop are not used in a later loop (reaching definitions), handlers around source reads re-raise, closing code of snapshot() writes complete file records, plus the rules of neighbouring properties that are necessary conditions here (stateless chunker, UTC timestamp, legacy-metadata fallback).'
+    ' Round 6: per-run stop flags, restore never probes the target, complete pagination, queue hand-over never drops a chunk.'
 )
 NOT_DECIDED = 'byte equality for every size / chunking configuration / concurrency (range arithmetic over runtime offsets composed with the native chunker)'
 TRUSTED = ['CPython ast', 'dict.fromkeys / set remove duplicates', 'open(path, "wb") truncates']
